@@ -4,6 +4,8 @@ PROPS = {
     "C06": {
         "level": "exploration",
         "budget": {"quick": 60, "thorough": 900},
+        "asan": {"budget": 60},
+        "miri": {"procs": 12, "count": 6},
         "needs_rel": True,
         "min_evaluations": 50000,
         "min_counters": {"programs_accepted": 3000, "programs_rejected": 30000, "values_accepted": 5000, "json_accepted": 500,
